@@ -1010,13 +1010,17 @@ class ListBox(Widget, WidgetContainerMixin):
         self.set_focus_pending = None
 
         # new position
-        _new_focus_widget, position = self._body.get_focus()
-        if focus_pos == position:
+        new_focus_widget, position = self._body.get_focus()
+        if focus_pos == position or new_focus_widget is None:
             # do nothing
             return None
 
         # restore old focus temporarily
-        self._body.set_focus(focus_pos)
+        try:
+            self._body.set_focus(focus_pos)
+        except (IndexError, KeyError):
+            # the old focus was removed from the body in the meantime: nothing to keep in view
+            return None
 
         middle, top, bottom = self.calculate_visible((maxcol, maxrow), focus)
         focus_offset, _focus_widget, focus_pos, focus_rows, _cursor = middle  # pylint: disable=unpacking-non-sequence
